@@ -15,6 +15,7 @@ import XlModel.Lemmas.CondFmt
 import XlModel.Lemmas.DvDelete
 import XlModel.DvRecord
 import XlModel.CfRule
+import XlModel.Lemmas.XmlAttr
 
 namespace XlModel.Props.C18
 open XlModel XlModel.Settings
@@ -1091,6 +1092,71 @@ theorem finding_cf_text_rule_hidden :
     setGet { Opts.empty with type := "text".toList, criteria := "greater than".toList, value := "abc".toList } = some none := by
   decide +kernel
 
+/-- rule type "text" with one of the four text criteria: Value reads back, criteria as canonical
+words — partial: see `finding_cf_text_rule_hidden` for every other accepted criteria -/
+theorem cf_text_roundtrip_partial (o : Opts) (ct : String) (ht : o.type = "text".toList)
+    (hc : lookupS Facts.C18.criteriaType o.criteria = some ct)
+    (htext : ct = "containsText" ∨ ct = "notContains" ∨ ct = "beginsWith" ∨ ct = "endsWith") :
+    setGet o = some (some { Opts.empty with type := "text".toList, format := o.format, stopIfTrue := o.stopIfTrue, criteria := opWords ct, value := o.value }) := by
+  rw [setGet_eq o "text" (some ct) (by rw [ht]; decide) hc (by simp) (by decide)]
+  rcases htext with h | h | h | h <;> subst h <;> cf_simp <;> simp only [strOr]
+
+/-- rule type "time_period": the criteria reads back as its canonical words for EVERY accepted
+criteria (the generated formula is not read back); Value and the other fields are dropped -/
+theorem cf_time_period_roundtrip (o : Opts) (ct : String) (ht : o.type = "time_period".toList)
+    (hc : lookupS Facts.C18.criteriaType o.criteria = some ct) :
+    setGet o = some (some { Opts.empty with type := "time_period".toList, format := o.format, stopIfTrue := o.stopIfTrue, criteria := opWords ct }) := by
+  rw [setGet_eq o "timePeriod" (some ct) (by rw [ht]; decide) hc (by simp) (by decide)]
+  cf_simp
+  simp only [strOr]
+
 end CfRuleThms
+
+/-! ## persistence: attribute-backed records through xml.Marshal / xml.Unmarshal -/
+
+section XmlAttrThms
+open XlModel.XmlAttr
+
+/-- in each regenerated tag table the attribute names of the modelled attribute fields are
+pairwise distinct (the hypothesis of `xml_attr_roundtrip`), and the tables are the ones of the
+three record structs: 21 sheet-protection, 11 workbook-protection, 12 data-validation attributes -/
+theorem xml_tag_tables_ok :
+    ((attrTags Facts.C18.tags_xlsxSheetProtection).map (·.xml)).Nodup ∧
+    ((attrTags Facts.C18.tags_xlsxWorkbookProtection).map (·.xml)).Nodup ∧
+    ((attrTags Facts.C18.tags_xlsxDataValidation).map (·.xml)).Nodup ∧
+    (attrTags Facts.C18.tags_xlsxSheetProtection).length = 21 ∧
+    (attrTags Facts.C18.tags_xlsxWorkbookProtection).length = 11 ∧
+    (attrTags Facts.C18.tags_xlsxDataValidation).length = 12 := by decide
+
+/-- Clause "… and persist": for ANY tag table with distinct attribute names and any field
+values that fit their tags (nil or set pointers, zero values under `omitempty` or not), reading
+back what was written gives the record itself: `unmarshal ∘ marshal = id` on the attribute
+fields. (The text codec of the scalar values is encoding/xml's and is not part of the model.) -/
+theorem xml_attr_roundtrip (tags : List Tag) (vals : List FVal) (hlen : vals.length = tags.length)
+    (hnd : (tags.map (·.xml)).Nodup) (hfit : ∀ p ∈ tags.zip vals, Fits p.1 p.2) :
+    unmarshal tags (marshal (tags.zip vals)) = (tags.zip vals).map (fun p => (p.1.go, p.2)) := by
+  have htags : (tags.zip vals).map Prod.fst = tags := List.map_fst_zip (by omega)
+  have hnd' : ((tags.zip vals).map (fun p => p.1.xml)).Nodup := by
+    have : (tags.zip vals).map (fun p => p.1.xml) = ((tags.zip vals).map Prod.fst).map (·.xml) := by
+      rw [List.map_map]; rfl
+    rw [this, htags]; exact hnd
+  unfold unmarshal
+  conv => lhs; arg 2; rw [← htags]
+  rw [List.map_map]
+  apply List.map_congr_left
+  intro p hp
+  simp only [Function.comp]
+  rw [unmarshalField_marshal (tags.zip vals) hnd' p hp (hfit p hp)]
+
+/-- non-vacuity on the data-validation table: a record with nil and set pointers, an omitted
+empty operator and a kept `false` AllowBlank survives the round trip -/
+theorem xml_attr_roundtrip_example :
+    let tags := attrTags Facts.C18.tags_xlsxDataValidation
+    let vals : List FVal := [.plain (.b false), .ptr .str (some (.s ['e'])), .ptr .str none, .ptr .str none, .plain (.s []),
+      .ptr .str none, .ptr .str (some (.s [])), .plain (.b false), .plain (.b true), .plain (.b false), .plain (.s ['A', '1']), .plain (.s ['l'])]
+    (marshal (tags.zip vals)).map (·.1) = ["allowBlank", "error", "promptTitle", "showErrorMessage", "sqref", "type"] ∧
+    unmarshal tags (marshal (tags.zip vals)) == (tags.zip vals).map (fun p => (p.1.go, p.2)) := by decide
+
+end XmlAttrThms
 
 end XlModel.Props.C18
